@@ -219,6 +219,24 @@ void runAdapterBase(const std::vector<std::string> & ws, size_t from)
 	}
 }
 
+// prototype void(std::string &, int): a movable class passed by non-const lvalue reference, adapted to two
+// listeners that take it BY VALUE; each listener and the caller afterwards must see the dispatched value
+std::string adsEncode(long v) { return "value-" + std::to_string(v) + "-padding-beyond-the-small-string-optimisation"; }
+long adsDecode(const std::string & s) { return s.size() > 6 ? std::atol(s.c_str() + 6) : -1; }
+void runAdapterString(const std::vector<std::string> & ws, size_t from)
+{
+	eventpp::CallbackList<void (std::string &, int)> list;
+	list.append(eventpp::argumentAdapter<void (std::string, int)>(
+		[](std::string s, int n) { std::printf("adsrun 1 %ld %d\n", adsDecode(s), n); }));
+	list.append(eventpp::argumentAdapter<void (std::string, int)>(
+		[](std::string s, int n) { std::printf("adsrun 2 %ld %d\n", adsDecode(s), n); }));
+	for(size_t i = from; i + 1 < ws.size(); i += 2) {
+		std::string s = adsEncode(vh::num(ws[i]));
+		list(s, (int)vh::num(ws[i + 1]));
+		std::printf("adsafter %ld\n", adsDecode(s));
+	}
+}
+
 } // namespace
 
 int main()
@@ -249,6 +267,7 @@ int main()
 		else if(ws[0] == "cf") { runConditional((int)vh::num(ws[1]), (int)vh::num(ws[2]), ws, 4); }
 		else if(ws[0] == "adc") { runAdapterChar(ws, 2); }
 		else if(ws[0] == "adb") { runAdapterBase(ws, 2); }
+		else if(ws[0] == "ads") { runAdapterString(ws, 2); }
 		else if(ws[0] == "end") {
 			runner.reset(); g_runner = nullptr;
 			std::printf("end\n"); std::fflush(stdout);
